@@ -193,7 +193,7 @@ func run(c *harness.Ctx, i int) {
 	// seeds
 	nseeds := rng.Intn(4)
 	var specs []seedSpec
-	kinds := []string{"identical", "older", "shuffled", "empty", "stale-bitflip", "stale-truncated", "stale-extended", "stale-missing", "duplicate", "self", "othersizes", "older", "identical"}
+	kinds := []string{"identical", "older", "shuffled", "empty", "stale-bitflip", "stale-truncated", "stale-extended", "stale-missing", "duplicate", "self", "othersizes", "older", "identical", "stale-oversize"}
 	for s := 0; s < nseeds; s++ {
 		kind := kinds[rng.Intn(len(kinds))]
 		file := filepath.Join(dir, fmt.Sprintf("seed%d", s))
@@ -218,6 +218,18 @@ func run(c *harness.Ctx, i int) {
 				sb = append(sb, blob[ch.Start:ch.Start+ch.Size]...)
 			}
 			dsu.WriteFile(file, sb)
+			sp.index = si
+		case "stale-oversize":
+			// the seed's index (read from a .caibx file: input like any other) is damaged: one entry carries the ID of
+			// a chunk and a size far beyond the file, its header allows that size
+			dsu.WriteFile(file, blob)
+			si := desync.Index{Index: idx.Index, Chunks: append([]desync.IndexChunk(nil), idx.Chunks...)}
+			if len(si.Chunks) > 0 {
+				k := rng.Intn(len(si.Chunks))
+				si.Chunks[k].Size = []uint64{1 << 62, 1 << 50, uint64(len(blob)) + 1 + uint64(rng.Intn(4096))}[rng.Intn(3)]
+				si.Index.ChunkSizeMax = 1 << 62
+				sp.stale = true
+			}
 			sp.index = si
 		case "empty":
 			dsu.WriteFile(file, nil)
@@ -279,6 +291,12 @@ func run(c *harness.Ctx, i int) {
 			o := sizeChoices[rng.Intn(len(sizeChoices))]
 			dsu.WriteFile(file, blob)
 			sp.index = dsu.RefIndex(blob, o)
+		}
+		if kind == "stale-oversize" && action == 2 {
+			// (regenerating chunks the seed file again with the sizes of the seed index's header, whose maximum had to be
+			// declared as large as the damaged entry for the file to be an index at all; desync keeps a zero chunk of
+			// the declared maximum in memory, see DESIGN section 6, observations: not this property's business)
+			action, actionName = 1, "skip"
 		}
 		specs = append(specs, sp)
 	}
